@@ -318,7 +318,7 @@ func jobsFor(prop, tier string) []*Job {
 		names := []string{"raw", "hash", "aes", "aes-ttl", "fallback(raw,hash)", "fallback(hash,aes-ttl)"}
 		for kind := 0; kind < 6; kind++ {
 			add(&Job{Name: "O1O2-codec/" + names[kind], Pkg: "roundrobin", Harness: "VerifC11Codec", Grid: 1e9, Params: p("kind", kind),
-				Bounds: "cookie codec " + names[kind] + ": universe of 4 server URLs (userinfo, query containing '|', port, escaped path), every non-empty pool subset (symbolic), cookie age symbolic within the ttl; AES-GCM replaced by an authenticated stand-in, crypto/rand by a fixed reader"})
+				Bounds: "cookie codec " + names[kind] + ": universe of 5 server URLs (userinfo, query containing '|', two differing in the port only, escaped path), every non-empty pool subset (symbolic), cookie age symbolic within the ttl; AES-GCM replaced by an authenticated stand-in, crypto/rand by a fixed reader"})
 		}
 		for kind := 0; kind < 6; kind += 1 {
 			for rb := 0; rb < 2; rb++ {
@@ -326,7 +326,7 @@ func jobsFor(prop, tier string) []*Job {
 					continue
 				}
 				add(&Job{Name: fmt.Sprintf("O3-routing/%s,rebalancer=%d", names[kind], rb), Pkg: "roundrobin", Harness: "VerifC11Routing", Grid: 1e9, Params: p("kind", kind, "rebalancer", rb),
-					Bounds: "three servers with symbolic weights 1..3, symbolic rotation state (0..3 warm-up selections), symbolic target server: request without cookie, request with the target's cookie, the same cookie after the target was removed; real http cookie parsing/formatting interpreted"})
+					Bounds: "three servers with symbolic weights 1..3, symbolic rotation state (0..3 warm-up selections), symbolic target server: request without cookie, request with the target's cookie, the same cookie after the target was removed, then a cookie nobody issued (5 forms); real http cookie parsing/formatting interpreted"})
 			}
 		}
 	case "C08":
